@@ -580,6 +580,12 @@ def _inline_helpers(tree, known=frozenset()):
         qn = f"{scope['qual']}.{f.id}"
         if qn in known or call.keywords:
             return None
+        # the enclosing function had a closure on the reference tree that is gone now:
+        # this new one is most likely that closure renamed - a rule anchor, not a helper
+        pref = scope["qual"] + "."
+        ref_inner = {q for q in known if q.startswith(pref) and "." not in q[len(pref):]}
+        if any(q[len(pref):] not in scope["closures"] for q in ref_inner):
+            return None
         key = ("closure", id(fn))
         if key not in infos:
             infos[key] = _helper_info(fn, closure=True)
@@ -917,6 +923,39 @@ def _merge_ifs(tree):
     fix(tree.body)
 
 
+def _one_ifexp_arg(call):
+    """(index, is_keyword) of the single conditional-expression argument of a call
+    whose callee and other arguments are plain names / attribute chains / constants
+    (so that evaluating the test first changes nothing), else None."""
+    def simple(e):
+        while isinstance(e, ast.Attribute):
+            e = e.value
+        return isinstance(e, (ast.Name, ast.Constant))
+    if not simple(call.func):
+        return None
+    found = None
+    for i, a in enumerate(call.args):
+        if isinstance(a, ast.IfExp):
+            if found is not None:
+                return None
+            found = (i, False)
+        elif not simple(a):
+            return None
+    for i, k in enumerate(call.keywords):
+        if isinstance(k.value, ast.IfExp):
+            if found is not None:
+                return None
+            found = (i, True)
+        elif not simple(k.value):
+            return None
+    if found is None:
+        return None
+    ie = call.keywords[found[0]].value if found[1] else call.args[found[0]]
+    if not (simple(ie.body) and simple(ie.orelse)):
+        return None
+    return found
+
+
 def _ifexp_to_if(tree):
     """N9: a statement-level conditional expression becomes a conditional
     statement: `x = A if C else B` -> `if C: x = A` `else: x = B`, and
@@ -937,6 +976,21 @@ def _ifexp_to_if(tree):
             if isinstance(st, ast.Return) and isinstance(v, ast.IfExp):
                 new = ast.If(v.test, [ast.copy_location(ast.Return(v.body), st)],
                              [ast.copy_location(ast.Return(v.orelse), st)])
+                out.extend(fix([ast.copy_location(new, st)]))
+            elif isinstance(st, ast.Expr) and isinstance(v, ast.Call) and _one_ifexp_arg(v) is not None:
+                # `f(a, X if C else Y)` as a statement, f and the other arguments plain
+                # names/constants: `if C: f(a, X)` `else: f(a, Y)`
+                i_, kw_ = _one_ifexp_arg(v)
+                ie_ = (v.keywords[i_].value if kw_ else v.args[i_])
+
+                def with_arg(val):
+                    c2 = _copy.deepcopy(v)
+                    if kw_:
+                        c2.keywords[i_].value = val
+                    else:
+                        c2.args[i_] = val
+                    return ast.copy_location(ast.Expr(c2), st)
+                new = ast.If(ie_.test, [with_arg(ie_.body)], [with_arg(ie_.orelse)])
                 out.extend(fix([ast.copy_location(new, st)]))
             elif isinstance(st, ast.Assign) and isinstance(v, ast.IfExp) and len(st.targets) == 1 \
                     and isinstance(st.targets[0], ast.Name) \
